@@ -1,6 +1,7 @@
 package main
 
 import (
+	"strings"
 	"encoding/json"
 	"flag"
 	"fmt"
@@ -46,6 +47,11 @@ func main() {
 		}
 		fn := prog.Func("sml", *lexDbg)
 		pos, _ := strconv.Atoi(flag.Arg(1))
+		if strings.HasPrefix(*lexDbg, "all:") {
+			toks, ok := lexAll(prog, strings.TrimPrefix(*lexDbg, "all:"), flag.Arg(0), 200)
+			fmt.Printf("ok=%v toks=%q\n", ok, toks)
+			return
+		}
 		var res lexResult
 		var ok bool
 		if flag.NArg() > 3 {
